@@ -1,6 +1,11 @@
 --------------------------- MODULE ZipGuardTrace ---------------------------
 (* code -> spec for C11.  Three kinds of recorded traces (Traces[tid].hdr.kind):
 
+   In every entry the dir bit is computed from the NAME only (ends in "/").  Events may carry a field
+   `meta` (external_attr, create_system, flag bits, compression method drawn per entry by the harness,
+   independently of the name): it is deliberately not read by any action -- the verdict depends on the
+   name and the sizes only.
+
    "lattice"  hdr.lim = <<maxEntries, maxSingle, maxTotal, trNum, trDen, erNum, erDen>>
               Case    {es: [[fs, cs, dirbit], ...], obs}    validate_zipfile ran on a ZipInfo list with
                       ZipBombLimits(lim); obs = "bomb" (raised ExtractionZipBombError) | "ok" | "other".
